@@ -209,7 +209,7 @@ PROPS["C03"] = dict(
           "all paths): bytecode verifier written from instr.hpp: PREPARE first / HALT last, routine extents from EXEC entries, jumps stay "
           "inside their routine and never land inside a call sequence, every register operand < the frame size of the frame it addresses "
           "(ARG targets in the callee frame, ARG sources / PREPARE targets / RET targets in the caller frame), PREPARE ARG* EXEC straight "
-          "line with ARG i filling parameter i, all PREPAREs of an entry agree on size and stack map, stack-map keys inside the frame, "
+          "line with every ARG filling a different parameter, all PREPAREs of an entry agree on size and stack map, stack-map keys inside the frame, "
           "argument count = parameter count of the named program; plus a dynamic monitor validating the operands of every executed "
           "instruction against the live frames (<=20000 steps) under ASan. Non-trivial: program with >=1 call; distinct by content hash."),
     min_nontrivial=dict(quick=3000, thorough=60000),
@@ -248,7 +248,7 @@ PROPS["C02"] = dict(
           "deletion / adjacent swap / truncation / insertion of 3 fixed valid programs with macros and an include. Oracle: compile returns "
           "(ASan, UBSan, _GLIBCXX_ASSERTIONS, hang guard; LeakSanitizer recoverable check every 128 cases and at exit), "
           "generated_correctly <=> errors.empty(), an incorrect result has >=1 error with non-empty message and a location naming a "
-          "supplied file / __standards__ / '-' with a line inside that file, emitted code size <= 64+12*(spliced token count + 1024*max "
+          "supplied file / __standards__ / '-' with a line inside that file, emitted code size <= 64+64*(spliced token count + 1024*max "
           "macro body). Non-trivial: rejected input with >=3 tokens, or input containing a macro definition; distinct by content hash."),
     exhaustive_note=dict(quick="all single-token deletions, adjacent swaps, truncations and a third of the 80-token insertions at every position of 3 base programs",
                          thorough="all single-token deletions, adjacent swaps, truncations and insertions of each of 80 vocabulary tokens at every position of 3 base programs"),
@@ -291,7 +291,7 @@ PROPS["C06"] = dict(
     rule=("cases: as C05 plus reset (9-letter alphabet for the exhaustive part; enable-all; resume-length sweep k=0..1100). Oracle: explicit model (position k on the recorded path, enabled "
           "set E, stepping flag S): execute stops at the first j>=k whose instruction is a site with S or loc in E, else at the end; "
           "executeSingle returns true exactly at such a site or at HALT; setBreakPoint returns true exactly for available locations and "
-          "updates E only then; after every call ip, isDone, the enabled set, the stepping flag and the armed/passive form of every site "
+          "updates E only then; after every call ip, isDone, the enabled set and the stepping flag "
           "are compared, getCurrentBreak() equals the site's location when the call stopped at a site and is none before the first step "
           "and after reset. Non-trivial: stops at >=2 different sites of which one is on a line with >=2 sites or inside a callee."),
     exhaustive_note=dict(quick="all 9-letter histories of length <=5 on 7 fixed programs", thorough="all 9-letter histories of length <=6 on 7 fixed programs"),
